@@ -104,6 +104,30 @@ def unit_serialise(rec: Rec, shard: int, nshards: int) -> None:
                     check_head(out, start, fields, f"serialise-{pos}")
                 except Violation as v:
                     rec.fail(v.key, f"U+{cp:04X} in {pos} at {place}: {v.msg}", case)
+    if shard == 0:
+        # all short combinations of the structural characters (a fold is CRLF + SP/HTAB, a split is CRLF + text ...)
+        import itertools as _it
+
+        alpha = ["\r", "\n", " ", "\t", "a", ":", "\x00", "\x0b"]
+        for n in (2, 3, 4):
+            for combo in _it.product(alpha, repeat=n):
+                ins = "".join(combo)
+                if "\r" not in ins and "\n" not in ins and "\x00" not in ins and "\x0b" not in ins:
+                    continue
+                for pos, base in bases.items():
+                    for place in (0, len(base) // 2, len(base)):
+                        s2 = base[:place] + ins + base[place:]
+                        start = s2 if pos == "start" else "HTTP/1.1 200 OK"
+                        fields = [("Host", "a"), (s2 if pos == "name" else "X-Name", s2 if pos == "value" else "v"), ("Z", "z")]
+                        rec.case(("combo", ins, pos, place), True, ["combo"])
+                        try:
+                            out = _py_serialize_headers(start, CIMultiDict(fields))
+                        except (ValueError, UnicodeError):
+                            continue
+                        try:
+                            check_head(out, start, fields, f"serialise-{pos}")
+                        except Violation as v:
+                            rec.fail(v.key, f"{ins!r} in {pos} at {place}: {v.msg}", {"unit": "serialise_combo", "ins": ins, "pos": pos, "place": place})
     rec.exhaustive = rec.tier != "quick"
 
 
@@ -724,6 +748,20 @@ def replay(rec: Rec, case: dict) -> None:
         s = base[:case["place"]] + chr(case["cp"]) + base[case["place"]:]
         start = s if case["pos"] == "start" else "HTTP/1.1 200 OK"
         fields = [("Host", "a"), (s if case["pos"] == "name" else "X-Name", s if case["pos"] == "value" else "v"), ("Z", "z")]
+        try:
+            out = _py_serialize_headers(start, CIMultiDict(fields))
+        except (ValueError, UnicodeError):
+            return
+        check_head(out, start, fields, f"serialise-{case['pos']}")
+    elif u == "serialise_combo":
+        from multidict import CIMultiDict
+
+        from aiohttp.http_writer import _py_serialize_headers
+
+        base = {"start": "HTTP/1.1 200 OK", "name": "X-Name", "value": "some value"}[case["pos"]]
+        s2 = base[:case["place"]] + case["ins"] + base[case["place"]:]
+        start = s2 if case["pos"] == "start" else "HTTP/1.1 200 OK"
+        fields = [("Host", "a"), (s2 if case["pos"] == "name" else "X-Name", s2 if case["pos"] == "value" else "v"), ("Z", "z")]
         try:
             out = _py_serialize_headers(start, CIMultiDict(fields))
         except (ValueError, UnicodeError):
